@@ -36,6 +36,8 @@ DEVS = [("Ind_dev_sliceany.cfg", "fragment nodes sliced in set-iteration order (
         ("Ind_dev_oncegroup.cfg", "a link applied once per set of residues: one orientation of a `*` link lost (seed-C13-2)"),
         ("Ind_dev_replacevisible.cfg", "replaced attribute values mirrored into the residue fragments: later links select on them (seed5-C13-2)"),
         ("Ind_dev_namecache.cfg", "residue-name combinations without link atoms remembered per link: same-named residues differing by a residue-level attribute (seed3-C13-1)"),
+        ("Ind_dev_patterncache.cfg", "residue-level matches cached per residue pattern of a link, stored in the node numbering of the link that filled the cache (seed7-C13-1)"),
+        ("Ind_dev_defineleak.cfg", "parameter macros of a polyply .itp kept for the files read later and substituted there: file order (seed7-C13-2)"),
         ("Ind_dev_dfstree.cfg", "fragments = components over depth-first tree edges (F31, repaired)"),
         ("Ind_dev_fragid.cfg", "correspondences stored in merge order, looked up by fragment id (F32, repaired)"),
         ("Ind_dev_itpglobal.cfg", "finishing an .itp re-tags the versions of all links read so far (F33, repaired)")]
@@ -43,7 +45,8 @@ HDEVS = [("Ind_hist_dev_cacheff.cfg", "loaded force fields cached between calls:
          ("Ind_hist_dev_append.cfg", "output appended to an existing file"),
          ("Ind_hist_dev_flushlate.cfg", "deferred writer queue flushed by the next call"),
          ("Ind_hist_dev_inpathleak.cfg", "library files appended to the (mutable default) inpath list of gen_params (seed-C13-1)"),
-         ("Ind_hist_dev_readercache.cfg", "file content cached by path: a file rewritten between calls is read with its old content (seed3-C13-2)")]
+         ("Ind_hist_dev_readercache.cfg", "file content cached by path: a file rewritten between calls is read with its old content (seed3-C13-2)"),
+         ("Ind_hist_dev_defineleak.cfg", "parameter macros of a polyply .itp kept in a class-level table of the parser: substituted in later calls (seed7-C13-2)")]
 
 
 def _fix_ffs(ffs):
@@ -56,6 +59,8 @@ def _fix_ffs(ffs):
         for b in F["blocks"]:
             if not isinstance(b["cite"], list):
                 b["cite"] = []
+            if not isinstance(b.get("macros", []), list):
+                b["macros"] = []
         if not isinstance(F["bib"], list):
             F["bib"] = []
     return ffs
@@ -190,7 +195,13 @@ def prepare_abstract_input(wd, k, case, F, lib=None):
     r = {"inpath": [str(p) for p in paths], "seq_file": str(jp), "name": "t", "label": "catalogue case %d (%s)" % (case["id"], " ".join(case["rn"]))}
     mode = lib["mode"] if lib else "all"
     lib = lib["files"] if lib else ()
-    if mode == "path":
+    if mode == "sub" and any(not paths[i - 1].name.startswith("ff%d_%d_" % (case["ff"], i)) for i in lib):
+        raise c.MachineryError("files of force field %d are not in the expected order: %s" % (case["ff"], [p.name for p in paths]))
+    if mode == "sub":
+        # explicit inpath (a new list per call) holding only the listed files of the force field (the same files on disk for every input)
+        r["inpath"] = [str(paths[i - 1]) for i in lib]
+        r["label"] += ", files %s of force field %d only" % (list(lib), case["ff"])
+    elif mode == "path":
         # the input's definitions are written to ONE path shared with the other inputs of this kind (a file rewritten between calls); the path
         # lives in the directory of the history (history_specs), the content is (re)written by the child process right before the call
         fs = [base[i - 1] for i in lib]
@@ -368,6 +379,20 @@ def random_ff_case(rng, idx):
                 t0 = [b for b in blocks if b["name"] == nm][0]["atoms"][0]["ty"]
                 links.append({"orders": [0, 1], "atoms": [{"oi": 1, "an": "c2", "rn": [nm]}, {"oi": 1, "an": "c1", "rn": [nm], "ty": t0}, {"oi": 2, "an": "c2", "rn": list(names)}],
                               "inters": [{"kind": "angles", "at": [1, 2, 3], "par": "0.30", "ver": 1}], "rep": [], "del": []})
+        if rng.random() < 0.35:   # two links with the SAME residue pattern (0, `>`) whose atom keys sort differently: an order-0 atom name starting with a digit
+            nm = rng.choice(names)
+            b = [x for x in blocks if x["name"] == nm][0]
+            b["atoms"].append({"an": "1c", "ty": "T1", "rn": nm, "res": 1})
+            b["inters"].append({"kind": "bonds", "at": [1, len(b["atoms"])], "par": "0.15", "ver": 1})
+            links.append({"orders": [0, 201], "atoms": [{"oi": 1, "an": "c1", "rn": [nm]}, {"oi": 1, "an": "c2", "rn": [nm]}, {"oi": 2, "an": "c1", "rn": [nm]}],
+                          "inters": [{"kind": "angles", "at": [1, 2, 3], "par": "0.37", "ver": 1}], "rep": [], "del": []})
+            links.append({"orders": [0, 201], "atoms": [{"oi": 1, "an": "1c", "rn": [nm]}, {"oi": 1, "an": "c2", "rn": [nm]}, {"oi": 2, "an": "c1", "rn": [nm]}],
+                          "inters": [{"kind": "angles", "at": [1, 2, 3], "par": "0.38", "ver": 1}], "rep": [], "del": []})
+            if rng.random() < 0.5:    # ... and the same with `<`
+                links.append({"orders": [0, 301], "atoms": [{"oi": 1, "an": "c2", "rn": [nm]}, {"oi": 2, "an": "1c", "rn": [nm]}],
+                              "inters": [{"kind": "bonds", "at": [1, 2], "par": "0.39", "ver": 1}], "rep": [], "del": []})
+                links.append({"orders": [0, 301], "atoms": [{"oi": 1, "an": "1c", "rn": [nm]}, {"oi": 1, "an": "c1", "rn": [nm]}, {"oi": 2, "an": "c2", "rn": [nm]}],
+                              "inters": [{"kind": "angles", "at": [1, 2, 3], "par": "0.40", "ver": 1}], "rep": [], "del": []})
     # residue graph
     marked_name = locals().get("marked_name")
     order = list(range(1, n + 1))
@@ -403,7 +428,7 @@ def random_ff_case(rng, idx):
                       "inters": [{"kind": "bonds", "at": [1, 2], "par": "0.35", "ver": 1}], "rep": [], "del": []})
         for nm in names:
             b = [x for x in blocks if x["name"] == nm][0]
-            links.append({"orders": [0, 1], "atoms": [{"oi": 1, "an": ATN[len(b["atoms"]) - 1], "rn": [nm]}, {"oi": 2, "an": "x1", "rn": ["X"]}],
+            links.append({"orders": [0, 1], "atoms": [{"oi": 1, "an": last[nm], "rn": [nm]}, {"oi": 2, "an": "x1", "rn": ["X"]}],
                           "inters": [{"kind": "bonds", "at": [1, 2], "par": "0.36", "ver": 1}], "rep": [], "del": []})
         start = 1
     else:
@@ -429,6 +454,11 @@ def random_ff_case(rng, idx):
         files = [f for f in files if f["defs"]]
         for d in itpdefs:
             files.insert(rng.randrange(len(files) + 1), {"syn": "itp", "defs": [d]})
+    # GROMOS-style parameter macros: one polyply .itp defines `gb_9`, another one names the bonded type gb_9 without defining it (handed through)
+    if len(itpdefs) >= 2 and rng.random() < 0.8:
+        who = rng.sample(itpdefs, 2)
+        blocks[who[0]["i"] - 1]["macros"] = [{"name": "gb_9", "val": "0.1999"}]
+        blocks[who[1]["i"] - 1]["inters"][0]["par"] = "gb_9"
     F = {"blocks": blocks, "links": links, "mods": mods, "bib": [], "files": files}
     for l in links:
         for a in l["atoms"]:
@@ -656,7 +686,8 @@ def run(tier, prop=PROP):
             ("export", "IndependenceExport", "Ind_export.cfg", 1, {}),
             ("hist", "IndependenceHistMC", "Ind_hist_3.cfg" if tier == "quick" else "Ind_hist_4.cfg", 1, {}),
             ("histlib", "IndependenceHistMC", "Ind_hist_lib.cfg", 1, {}),
-            ("histpath", "IndependenceHistMC", "Ind_hist_path.cfg", 1, {})]
+            ("histpath", "IndependenceHistMC", "Ind_hist_path.cfg", 1, {}),
+            ("histdef", "IndependenceHistMC", "Ind_hist_def.cfg", 1, {})]
     jobs += [("dev:" + cfg, "IndependenceMC", cfg, 1, {"check": False}) for cfg, _ in DEVS]
     jobs += [("hdev:" + cfg, "IndependenceHistMC", cfg, 1, {"check": False}) for cfg, _ in HDEVS]
     from ..links_util import run_jobs
@@ -665,6 +696,7 @@ def run(tier, prop=PROP):
     ck.model_must_hold(res["hist"], "HistoryIndependent / RepeatStable")
     ck.model_must_hold(res["histlib"], "HistoryIndependent / RepeatStable (library inputs with the default inpath)")
     ck.model_must_hold(res["histpath"], "HistoryIndependent / RepeatStable (an input file rewritten between calls under one path)")
+    ck.model_must_hold(res["histdef"], "HistoryIndependent / RepeatStable (an .itp that defines a parameter macro, another that uses the token as a bonded type name)")
     for cfg, what in DEVS:
         ck.model_must_refute(res["dev:" + cfg], "Confluent", what)
     for cfg, what in HDEVS:
@@ -680,6 +712,7 @@ def run(tier, prop=PROP):
     hinputs = replay_histories(ck, res["hist"], ffs, tier)
     hinputs += replay_histories(ck, res["histlib"], ffs, tier, "histlib", 2 if tier == "quick" else 3)[:2]
     hinputs += replay_histories(ck, res["histpath"], ffs, tier, "histpath", 2 if tier == "quick" else 3)[:2]
+    hinputs += replay_histories(ck, res["histdef"], ffs, tier, "histdef", 2 if tier == "quick" else 3)[:2]
 
     ck.stage("I->S: random cases, repository force fields, random histories")
     rng = random.Random(sd * 1000003 + 13)
@@ -719,7 +752,9 @@ def run(tier, prop=PROP):
         "two_separate_fragments": sum(1 for F, cs in gen if _nfrag(cs) >= 2),
         "links_selecting_on_a_residue_attribute": sum(1 for F, cs in gen if any(cs["mark"])),
         "replace_link_and_link_selecting_the_replaced_attribute": sum(1 for F, cs in gen if any(a.get("ty") for l in F["links"] for a in l["atoms"])),
-        "star_order_links": sum(1 for F, cs in gen if any(o >= 100 for l in F["links"] for o in l["orders"])),
+        "star_order_links": sum(1 for F, cs in gen if any(100 <= o < 200 for l in F["links"] for o in l["orders"])),
+        "links_sharing_a_residue_pattern_numbered_differently": sum(1 for F, cs in gen if any(o >= 200 for l in F["links"] for o in l["orders"])),
+        "itp_with_parameter_macro_next_to_itp_using_the_token": sum(1 for F, cs in gen if any(b.get("macros") for b in F["blocks"])),
         "link_versions_next_to_itp_files": sum(1 for F, cs in gen if any(f["syn"] == "itp" for f in F["files"]) and any(x["ver"] != 1 for l in F["links"] for x in l["inters"]))}
     ck.extra["random_cases"] = {"cases": len(recs), "variants": sum(len(r["vars"]) for r in recs), "variants_with_reordered_definitions": nreordered,
                                 "with_mustkeep_pairs": sum(1 for k in keeps if k)}
